@@ -14,7 +14,7 @@ TRUSTED_BASE = [
     "and _file_passes_filter_impl (validated by the correspondence); importlib itself (finder protocol, sys.modules, loaders) is not modelled",
     "tools/impl/c12_proc.py (one real process per run), tools/props/impcommon.py (package generator)",
 ]
-ASSUMPTIONS = ["handlers are observing; tracers do not override file_passes_filter_for_event; imports happen on the thread that entered the context",
+ASSUMPTIONS = ["handlers are observing; a tracer's file_passes_filter_for_event either is the default or rejects exactly the two import events; imports happen on the thread that entered the context",
                "behaviour of an instrumented module equal to the plain one rests on C01; here module namespaces are compared"]
 
 EVENT_SETS = [["load_name", "after_stmt"], ["after_assign_rhs", "before_call", "after_return"], ["after_function_execution", "before_for_loop_body", "after_comprehension_elt", "load_name"],
@@ -34,10 +34,16 @@ def gen_case(rng):
         else:
             acc = [f for f in ic.FILES if rng.random() < rng.choice([0.2, 0.5, 0.8])]
         tracers.append({"cls": "Tr%s" % "ABC"[i], "accept": acc, "events": rng.choice(EVENT_SETS), "guards": rng.random() < 0.6})
+        if rng.random() < 0.2:
+            # the class narrows its events per file (file_passes_filter_for_event): the two import events are rejected for every file;
+            # whether a file is instrumented is decided by should_instrument_file alone
+            tracers[-1]["no_import_events"] = True
     return {"seed": rng.randrange(10 ** 6), "tracers": tracers, "pre_e": rng.random() < 0.4, "reimport": rng.random() < 0.4,
             "reload": rng.choice([None, None, "pk.b", "px.e", "pk.sub.c"]), "evict": rng.choice([None, None, None, "pk.b", "px.e"]),
             # px.g: its spec (and loader) is obtained inside the context, the module is executed after every context / inside a second context of the first tracer
-            "deferred": rng.choice([None, "after", "after", "first"])}
+            "deferred": rng.choice([None, "after", "after", "first"]),
+            # files opted in by an earlier context of every tracer (tracing_enabled_file), which has ended: no effect on what follows
+            "optin_before": rng.sample(ic.FILES, rng.choice([1, 2])) if rng.random() < 0.3 else []}
 
 
 def accepts(t, f):
@@ -48,7 +54,7 @@ def payloads(c):
     imports = ["pk"] + (["pk.a", "pk.sub.c"] if c["reimport"] else []) + ["px.e"]
     # importlib.reload of a loaded module / a fresh import after eviction from sys.modules, inside the context
     imports += (["reload:" + c["reload"]] if c.get("reload") else []) + (["evict:" + c["evict"]] if c.get("evict") else [])
-    base = {"imports": imports, "pre": ["px.e"] if c["pre_e"] else [], "post": ["px.d"], "calls": ["pk.a.fa", "px.e.fe"], "post_calls": ["pk.a.fa", "pk.b.fb"]}
+    base = {"imports": imports, "optin_before": c.get("optin_before", []), "pre": ["px.e"] if c["pre_e"] else [], "post": ["px.d"], "calls": ["pk.a.fa", "px.e.fe"], "post_calls": ["pk.a.fa", "pk.b.fb"]}
     # fa / fb take an argument: call them through zero-argument wrappers defined below in the layout
     base["calls"] = ["pk.call_fa", "px.e.fe"]
     base["post_calls"] = ["pk.call_fa"]
@@ -195,7 +201,7 @@ def k_imp(ctx, cases, results):
         ts = []
         for ti, t in enumerate(c["tracers"]):
             acc = "(fun _ => true)" if t["accept"] == "ALL" else "(fun f => existsb (N.eqb f) [%s])" % "; ".join(str(ic.FILES.index(f)) for f in t["accept"])
-            ts.append("{| t_id := %d; t_accepts := %s; t_import_events := fun _ => true; t_enabled := true |}" % (ti, acc))
+            ts.append("{| t_id := %d; t_accepts := %s; t_import_events := fun _ => %s; t_enabled := true |}" % (ti, acc, "false" if t.get("no_import_events") else "true"))
         later = "[]" if c.get("deferred") != "first" else "(firstn 1 st)"
         L.append("Eval vm_compute in (let st := [%s] in (map (fun f => match compile_of st f true true with Stock => [] | Rewritten l => l end) [%s], "
                  "match compile_later st %s %d true true with Stock => [] | Rewritten l => l end))."
